@@ -2,23 +2,54 @@
 from dataclasses import dataclass
 
 
-@dataclass(frozen=True)
 class App:
-    f: str
-    pos: tuple
-    kw: tuple  # ((name, value), ...) sorted by name
+    """the result of an uninterpreted pure function; hashable, with a cached hash (terms share sub-terms: hashing
+    them as trees would be exponential in the depth of a pipeline)"""
+    __slots__ = ('f', 'pos', 'kw', '_h')
+
+    def __init__(self, f, pos, kw):
+        object.__setattr__(self, 'f', f)
+        object.__setattr__(self, 'pos', tuple(pos))
+        object.__setattr__(self, 'kw', tuple(kw))
+        object.__setattr__(self, '_h', None)
+
+    def __setattr__(self, k, v):
+        raise AttributeError('immutable')
+
+    def _key(self):
+        return (type(self).__name__, self.f, self.pos, self.kw)
+
+    def __hash__(self):
+        if self._h is None:
+            object.__setattr__(self, '_h', hash(self._key()))
+        return self._h
+
+    def __eq__(self, other):
+        if self is other:
+            return True
+        return type(other) is type(self) and hash(self) == hash(other) and self._key() == other._key()
+
+    def __reduce__(self):
+        return (type(self), (self.f, self.pos, self.kw))
 
     def __repr__(self):
         args = [repr(x) for x in self.pos] + [f'{k}={v!r}' for k, v in self.kw]
         return f'{self.f}({", ".join(args)})'
 
 
-@dataclass(frozen=True)
-class Imp:
-    f: str
-    serial: int
-    pos: tuple
-    kw: tuple
+class Imp(App):
+    """the result of an impure function: tagged by the serial number of the invocation"""
+    __slots__ = ('serial',)
+
+    def __init__(self, f, serial, pos, kw):
+        App.__init__(self, f, pos, kw)
+        object.__setattr__(self, 'serial', serial)
+
+    def _key(self):
+        return ('Imp', self.f, self.serial, self.pos, self.kw)
+
+    def __reduce__(self):
+        return (Imp, (self.f, self.serial, self.pos, self.kw))
 
     def __repr__(self):
         args = [repr(x) for x in self.pos] + [f'{k}={v!r}' for k, v in self.kw]
